@@ -459,6 +459,7 @@ func checkC06(w *World, r *Report) {
 
 	// ---- R06.2 / R06.3
 	s.checkInheritance(r, choke)
+	checkPolicyQueriesPure(w, r)
 
 	// ---- R06.5: conversions of FilterFunc/FunctionFunc values to interfaces in render-reachable code
 	n65 := 0
@@ -905,4 +906,108 @@ func (s *sandboxFacts) checkInheritance(r *Report, choke map[*ssa.Function]bool)
 		})
 	}
 	r.floor("stores to RenderContext.sandboxed", nStores, 2)
+}
+
+// checkPolicyQueriesPure — R06.6: asking the policy changes nothing.  Every SecurityPolicy
+// implementation of the package answers IsFilterAllowed / IsFunctionAllowed / IsTagAllowed
+// without writing memory that outlives the call (no store through a pointer, no map update, no
+// sync.Map / atomic write, here or in the package functions it calls).  A policy object that
+// remembers earlier answers ("this name was cleared before") makes what is permitted depend on
+// what was asked first — a filter name that was allowed clears the function of the same name,
+// and a policy that is narrowed later is not obeyed.
+func checkPolicyQueriesPure(w *World, r *Report) {
+	iface, ok := w.named("SecurityPolicy").Underlying().(*types.Interface)
+	if !ok {
+		cannotDecide("anchor SecurityPolicy is not an interface")
+	}
+	query := map[string]bool{}
+	for i := 0; i < iface.NumMethods(); i++ {
+		query[iface.Method(i).Name()] = true
+	}
+	n := 0
+	for _, fn := range w.pkgFuncs() {
+		recv := fn.Signature.Recv()
+		if recv == nil || fn.Synthetic != "" || !query[fn.Name()] {
+			continue
+		}
+		rt := deref(recv.Type())
+		if _, isI := rt.Underlying().(*types.Interface); isI {
+			continue
+		}
+		if !types.Implements(rt, iface) && !types.Implements(types.NewPointer(rt), iface) {
+			continue
+		}
+		n++
+		construct := "policy query has no side effect"
+		why := ""
+		seen := map[*ssa.Function]bool{}
+		var scan func(g *ssa.Function, d int)
+		scan = func(g *ssa.Function, d int) {
+			if g == nil || seen[g] || d > 4 || why != "" || len(g.Blocks) == 0 {
+				return
+			}
+			seen[g] = true
+			instrsOf(g, func(in ssa.Instruction) {
+				if why != "" {
+					return
+				}
+				switch x := in.(type) {
+				case *ssa.Store:
+					root := x.Addr
+					for k := 0; k < 8; k++ {
+						switch a := root.(type) {
+						case *ssa.FieldAddr:
+							root = a.X
+							continue
+						case *ssa.IndexAddr:
+							root = a.X
+							continue
+						}
+						break
+					}
+					if _, isLocal := root.(*ssa.Alloc); !isLocal {
+						why = "a store to memory that outlives the call (" + w.posOf(x.Pos()) + ")"
+					}
+				case *ssa.MapUpdate:
+					if _, isLocal := x.Map.(*ssa.MakeMap); !isLocal {
+						why = "a map update (" + w.posOf(x.Pos()) + ")"
+					}
+				case ssa.CallInstruction:
+					f := calleeFunc(x)
+					if f != nil && f.Pkg() != nil {
+						full := f.FullName()
+						if f.Pkg().Path() == "sync/atomic" && !strings.Contains(f.Name(), "Load") {
+							why = "an atomic write " + full + " (" + w.posOf(in.Pos()) + ")"
+							return
+						}
+						switch full {
+						case "(*sync.Map).Store", "(*sync.Map).LoadOrStore", "(*sync.Map).Swap", "(*sync.Map).Delete", "(*sync.Map).LoadAndDelete", "(*sync.Map).CompareAndSwap", "(*sync.Map).Range":
+							if full != "(*sync.Map).Range" {
+								why = "a write to a sync.Map, " + full + " (" + w.posOf(in.Pos()) + ")"
+								return
+							}
+						}
+					}
+					if h := x.Common().StaticCallee(); h != nil && h.Pkg != nil && h.Pkg.Pkg.Path() == twigPath {
+						scan(h, d+1)
+					}
+					// function literals passed along
+					for _, a := range x.Common().Args {
+						if mc, ok := a.(*ssa.MakeClosure); ok {
+							if h, ok := mc.Fn.(*ssa.Function); ok {
+								scan(h, d+1)
+							}
+						}
+					}
+				}
+			})
+		}
+		scan(fn, 0)
+		if why == "" {
+			r.ok("R06.6", ssaName(fn), construct, w.posOf(fn.Pos()), "no write to non-local memory in the method or the package functions it calls", true)
+		} else {
+			r.bad("R06.6", ssaName(fn), construct, w.posOf(fn.Pos()), "answering the query performs "+why+": the policy object carries state from one query to the next, so whether a filter or function is permitted can depend on what was asked before (a name cleared as a filter clears the function of that name; a policy narrowed later is not obeyed)")
+		}
+	}
+	r.floor("policy query methods of the package's SecurityPolicy implementations", n, 2)
 }
